@@ -7,5 +7,11 @@ import sys
 
 from harness.realproc.tt_member import member_main
 
+if __name__ == "__mp_main__":
+    # re-imported in a loky_init_main child: a main script that uses the tracker at module level
+    # (a tracked operation / a loky Lock at import time), when the scenario asks for it
+    from harness.realproc.tt_member import import_time_op
+    import_time_op()
+
 if __name__ == "__main__":
     member_main(sys.argv[1], int(sys.argv[2]))
